@@ -54,6 +54,12 @@ pub async fn on_did_rename_files_handler(
         let encoding = &analysis.get_emmyrc().workspace.encoding;
         for rename in all_renames.iter() {
             analysis.remove_file_by_uri(&rename.old_uri);
+            // the old uri left the analysis: drop what was published for it
+            if !context.lsp_features().supports_pull_diagnostic() {
+                context
+                    .file_diagnostic()
+                    .clear_push_file_diagnostics(rename.old_uri.clone());
+            }
             if let Some(new_path) = uri_to_file_path(&rename.new_uri)
                 && let Some(text) = read_file_with_encoding(&new_path, encoding)
             {
